@@ -5,6 +5,7 @@
 # patch applied, undoes it, stores everything under /verif/seeded/<seed-name>/ and removes the worktree.
 set -u
 PID=$1; NAME=$2; shift 2; CHECKS=${@:-$PID}
+V=${VERIF_DIR:-/verif}    # a scratch copy of /verif (VERIF_DIR) lets seeds be checked while /verif itself is running checks
 WT=/tmp/wt_$NAME; OUT=/tmp/seed_$NAME; DST=/verif/seeded/$NAME
 mkdir -p $DST
 cd $WT || exit 2
@@ -24,7 +25,7 @@ echo "demo with change rc=$rc_with ; clean rc=$rc_clean"
 results=""
 run_checks() {   # $1 = repository tree the checks run against
   for c in $CHECKS; do
-    out=$(cd /verif && VERIF_REPO=$1 timeout 1500 ./check $c --tier quick 2>&1 | tail -40)
+    out=$(cd $V && VERIF_REPO=$1 timeout 1500 ./check $c --tier quick 2>&1 | tail -40)
     nviol=$(echo "$out" | grep -c "^VIOLATION")
     echo "check $c: violations=$nviol :: $(echo "$out" | tail -1)"
     echo "$out" | grep "^VIOLATION" | head -3 > $DST/check_$c.log
@@ -42,8 +43,8 @@ elif git -C /repo apply --check $DST/patch.diff; then
 else
   echo "patch does not apply to /repo"
 fi
-git -C /verif checkout -- evidence coq/Model/Schemas.v coq/Model/UnitTable.v coq/Model/Enums.v 2>/dev/null
-rm -f /verif/replays/*.json
+[ "$V" = /verif ] && git -C /verif checkout -- evidence coq/Model/Schemas.v coq/Model/UnitTable.v coq/Model/Enums.v 2>/dev/null
+rm -f $V/replays/*.json
 python3 - <<PY
 import json
 m = json.load(open("$OUT/meta.json")) if __import__("os").path.exists("$OUT/meta.json") else {}
